@@ -6,9 +6,9 @@
      wrapf <bits> <fmt 0|1|2|-> <1904>      -> canonical data
      wrapi <i64> <fmt> <1904>               -> canonical data
      sweep <alphabet hex> <len> <prefix hex>-> n0,n1,n2,fnv64 over all strings prefix+w, |w| = len
-     ast <wire>                             -> hex|classify|known|wf|detect      (model only)
+     ast <wire>                             -> hex|classify|wf|detect            (model only)
      xlsxm <numfmts> <cellxfs> <1904> <cells>   raw style table through the xlsx model
-     xlsxs <customs> <xfs> <1904> <cells>       logical table: encoder + model + spec + known
+     xlsxs <customs> <xfs> <1904> <cells>       logical table: encoder + model + spec
      biffs <xls|xlsb> <customs> <xfs> <1904> <cells>
    Same canonical output as harness/src/cmds/numfmt.rs. *)
 open Conv
@@ -23,7 +23,6 @@ let show_data = function
   | DFloat b -> "F" ^ string_of_n b
   | DDateTime (b, dur, d1904) ->
     Printf.sprintf "D%s:%d:%d" (string_of_n b) (if dur then 1 else 0) (if d1904 then 1 else 0)
-let show_known = function None -> "-" | Some k -> string_of_n k
 
 (* ---------- AST wire format: sections separated by ';', tokens by ' ' ---------- *)
 let ups_of s = List.init (String.length s) (fun i -> s.[i] = '1')
@@ -136,7 +135,7 @@ let run_cmd (args : string list) : string =
   | "ast" :: tl ->
     let a = ast_of (match tl with [w] -> w | _ -> "") in
     let r = render a in
-    String.concat "|" [hex_of_scalars r; code (classify a); show_known (known_C10 a);
+    String.concat "|" [hex_of_scalars r; code (classify a);
                        (if wf a then "1" else "0"); code (detect r)]
   | ["xlsxm"; nf; xf; d; cells] ->
     let formats = xlsx_read_styles { xs_numfmts = raw_numfmts nf; xs_cellxfs = raw_xfs xf } in
@@ -154,16 +153,8 @@ let run_cmd (args : string list) : string =
         match nth_fmt spec i with
         | Some k -> show_data (spec_cell k (b01 d) (NF bits))
         | None -> "?") cs in   (* style index out of range: nothing specified *)
-    let kn = List.map (fun (s, _) ->
-        let i = match s with Some i -> i | None -> BinNums.N0 in
-        match List.nth_opt t.xfs (int_of_n i) with
-        | Some fmt ->
-          (match known_xlsx_fmt t fmt with
-           | Some k -> show_known (Some k)
-           | None -> show_known (known_xlsx_cell spec s))
-        | None -> "-") cs in
     String.concat "|" [show_raw_numfmts enc.xs_numfmts; show_raw_xfs enc.xs_cellxfs;
-                       String.concat "," m; String.concat "," sp; String.concat "," kn]
+                       String.concat "," m; String.concat "," sp]
   | ["biffs"; kind; cu; xf; d; cells] ->
     let t = { customs = customs_of cu; xfs = xfs_of xf } in
     let enc = enc_biff t in
@@ -178,11 +169,8 @@ let run_cmd (args : string list) : string =
         match nth_fmt spec i with
         | Some k -> show_data (spec_cell k (b01 d) (match v with BNum n -> n | BFormula b -> NF b))
         | None -> "?") cs in
-    let kn = List.map (fun (i, v) -> match v with
-        | BFormula _ -> show_known (known_xls_formula spec i)
-        | _ -> "-") cs in
     String.concat "|" [String.concat "," (List.map code formats);
-                       String.concat "," m; String.concat "," sp; String.concat "," kn]
+                       String.concat "," m; String.concat "," sp]
   | _ -> "bad-args"
 
 let () = Registry.register "numfmt" run_cmd
